@@ -142,7 +142,7 @@ func runReplay(rf *ReplayFile) replayResult {
 	op := filepath.Join(tmp, "overlay.json")
 	os.WriteFile(op, ob, 0o644)
 
-	args := []string{"test", "-vet=off", "-count=1", "-tags", "verif", "-run", "^TestVFReplay$", "-overlay", op, "-timeout", "120s"}
+	args := []string{"test", "-v", "-vet=off", "-count=1", "-tags", "verif", "-run", "^TestVFReplay$", "-overlay", op, "-timeout", "120s"}
 	if rf.Kind == "MEMSAFETY" {
 		args = append(args, "-gcflags=all=-d=checkptr")
 	}
